@@ -126,7 +126,10 @@ class _Canon(ast.NodeTransformer):
 
     def visit_JoinedStr(self, node):  # noqa: N802
         # f'..{a}..{b}' with plain fields  ->  '..{}..{}'.format(a, b): one spelling of string building for the rules that read format texts
-        self.generic_visit(node)
+        # (the format spec of a field is itself a JoinedStr: it stays one -- `f'{x:{spec}}'` has no plain-field spelling)
+        for v in node.values:
+            if isinstance(v, ast.FormattedValue):
+                v.value = self.visit(v.value)
         if not any(isinstance(v, ast.FormattedValue) for v in node.values):
             return node
         text, args = '', []
@@ -140,6 +143,20 @@ class _Canon(ast.NodeTransformer):
                 return node
         new = ast.Call(func=ast.Attribute(value=ast.Constant(value=text), attr='format', ctx=ast.Load()), args=args, keywords=[])
         return ast.copy_location(new, node)
+
+    def visit_Try(self, node):  # noqa: N802
+        # try: x = getattr(o, n)  except AttributeError: x = d      ->  x = getattr(o, n, d)     (d a plain name / attribute / constant: nothing to evaluate early)
+        self.generic_visit(node)
+        if len(node.body) == 1 and len(node.handlers) == 1 and not node.orelse and not node.finalbody:
+            st, h = node.body[0], node.handlers[0]
+            if isinstance(st, ast.Assign) and len(st.targets) == 1 and isinstance(st.targets[0], ast.Name) and isinstance(st.value, ast.Call) and \
+                    isinstance(st.value.func, ast.Name) and st.value.func.id == 'getattr' and len(st.value.args) == 2 and not st.value.keywords and \
+                    isinstance(h.type, ast.Name) and h.type.id == 'AttributeError' and h.name is None and len(h.body) == 1 and \
+                    isinstance(h.body[0], ast.Assign) and len(h.body[0].targets) == 1 and isinstance(h.body[0].targets[0], ast.Name) and \
+                    h.body[0].targets[0].id == st.targets[0].id and isinstance(h.body[0].value, (ast.Name, ast.Attribute, ast.Constant)):
+                call = ast.Call(func=st.value.func, args=list(st.value.args) + [h.body[0].value], keywords=[])
+                return ast.copy_location(ast.Assign(targets=st.targets, value=ast.copy_location(call, st.value)), node)
+        return node
 
     def visit_IfExp(self, node):  # noqa: N802
         self.generic_visit(node)
